@@ -2048,11 +2048,44 @@ def _early_paths(chk, mod, fi, narr, early):
                 continue
             if r[0] == "take" and r[1] == a:
                 r = r[2]                 # the values at the kept indices
+            if _single_element_result(V, r, a, p.facts, w):
+                continue
             _vector_kept(V, r, a, w)
             boundary_tests(V, r, a, p.facts, w)
         if not vflag:
             break
     V.emit(chk, "R06.1", q)
+
+
+def _size_is_one(facts, a):
+    """has the path established that the input holds exactly one element (size(a) == 1 decided true, or != 1 decided false)"""
+    n = t_size(a)
+    for t, v, _ in facts:
+        if isinstance(t, tuple) and t and t[0] == "cmp" and {t[2], t[3]} == {n, K(1)} and len({t[2], t[3]}) == 2:
+            if (t[1] == "eq" and v) or (t[1] == "ne" and not v):
+                return True
+    return False
+
+
+def _single_element_result(V, r, a, facts, w):
+    """a path that returns without sorting anything after it has established that the input holds exactly one element: the one index per
+    distinct value is then input index 0 (which is also sorted position 0), whatever the value (and the flag) is.  Known spellings of the
+    one-entry index array [0]: zeros(n) / zeros(1) (n the input size, 1 on this path), [0], arange(n) / arange(1), argsort(input).
+    True when the path was decided here"""
+    if not _size_is_one(facts, a):
+        return False
+    n = t_size(a)
+    key = "one-element-input-keeps-index-0"
+    msg = "on a path that has established that the input holds exactly one element the returned index array is the single index 0"
+    t = r[1] if r[0] in ("arr", "asarr") and len(r) == 2 else r
+    if t[0] == "alloc" and _alloc_n(t) in (n, K(1)):
+        V.add(key, True if t[1] == "zeros" else False, msg + "; found %s%s" % (short(r), "" if t[1] == "zeros" else
+              " -- a one-entry array that does not hold 0 (index 1 does not exist, an uninitialised entry is arbitrary)"), w)
+        return True
+    if t in (("list", K(0)), ("tuple", K(0)), ("argsort", a), ("arange", n), ("arange", K(1))):
+        V.add(key, True, msg + "; found %s" % short(r), w)
+        return True
+    return False
 
 
 def _all_flags_equal(t, v, fl):
@@ -2087,6 +2120,8 @@ def _flagged_early(V, r, a, fl, facts, w):
         idx = idx[1]
     if r[0] == "tuple" and len(r) == 3 and r[1] == t_take(a, r[2]) and r[1] != r[2]:
         V.add("indices-before-values", False, "the indices come first and the values at those indices second; found %s" % short(r), w)
+        return
+    if _single_element_result(V, idx, a, facts, w):
         return
     if idx == ("uniqidx", a):
         eq = any(_all_flags_equal(t, v, fl) for t, v, _ in facts)
@@ -2135,6 +2170,8 @@ def _vector_result(V, p, a, fl, w):
         r = r[2]                 # the values at the kept indices
     while r[0] == "sorted":
         r = r[1]                 # the kept indices in ascending order: the same set of indices
+    if _single_element_result(V, r, a, p.facts, w):
+        return
     if fl is None:
         _vector_kept(V, r, a, w)
         boundary_tests(V, r, a, p.facts, w)
@@ -2164,6 +2201,8 @@ def _vector_dedup(chk, mod, fi, narr):
             r = p.value
             if r[0] == "take" and r[1] == a:
                 r = r[2]                 # the values at the kept indices
+            if _single_element_result(V, r, a, p.facts, w):
+                continue
             _vector_kept(V, r, a, w)
             boundary_tests(V, r, a, p.facts, w)
         if not vflag:
@@ -2651,6 +2690,31 @@ class Scan:
         finally:
             self._busy.discard(name)
 
+    def count_at(self, c, line, since=None):
+        """the literal value the slot counter c holds on reaching the top-level statement at `line`, from its straight-line definitions outside
+        the loop (`c = 0`, `c += 1` at the top level of the function); with `since`, the amount added to it between the two lines.  None when
+        a definition in that range is not of this kind"""
+        lo = since if since is not None else 0
+        val = 0 if since is not None else None
+        for v, st in sorted((d for d in self.defs.get(c, []) if id(d[1]) not in self.inloop), key=lambda d: d[1].lineno):
+            if not lo < st.lineno < line:
+                continue
+            if not any(st is b for b in self.fn.body):
+                return None
+            if isinstance(v, ast.AST) and since is None:
+                d = self.D(self.X(v))
+                if d[0] != "lit":
+                    return None
+                val = d[1]
+            elif isinstance(v, tuple) and v[1] in ("Add", "Sub") and val is not None:
+                d = self.D(self.X(v[2]))
+                if d[0] != "lit":
+                    return None
+                val += d[1] if v[1] == "Add" else -d[1]
+            else:
+                return None
+        return val
+
     # -- descriptors -----------------------------------------------------------
     def D(self, e):
         """index-space descriptor of an (expanded) expression"""
@@ -3080,8 +3144,17 @@ def _scan_logic(chk, sc, narr):
     if space not in ("Idx", "Pos"):
         return
     want_cur = ("idx", "cur") if space == "Idx" else cur
+
+    def lit_slot(slot, st):
+        """a slot named through a slot counter in the straight-line code before the scan is the literal slot the counter stands for there"""
+        if isinstance(slot, tuple) and slot[0] in ("count", "count+"):
+            v = sc.count_at(slot[1], st.lineno)
+            if v is not None:
+                return ("lit", v + (slot[2] if slot[0] == "count+" else 0))
+        return slot
+
     in_st = [(slot, v, st) for slot, v, st in st_all if inloop(st)]
-    pre_st = [(slot, v, st) for slot, v, st in st_all if not inloop(st) and st.lineno < lp.lineno]
+    pre_st = [(lit_slot(slot, st), v, st) for slot, v, st in st_all if not inloop(st) and st.lineno < lp.lineno]
     post_st = [(slot, v, st) for slot, v, st in st_all if not inloop(st) and st.lineno > lp.lineno]
     posvars = {v[1][1] for _, v, _ in in_st if v[0] in ("pos", "idx") and isinstance(v[1], tuple) and v[1][0] == "var"}
     mode = "B" if posvars else "A"
@@ -3100,21 +3173,43 @@ def _scan_logic(chk, sc, narr):
         news = [(slot, v, st) for slot, v, st in in_st if where_arm(st) == "new"]
         ok = None
         slot_new = None
+        # the slot arithmetic is decided on the relation between the slot counter c and the number U of slots in use: c = U + slot_k throughout
+        # the scan (slot_k = -1: c is the last slot used, `c += 1; keep[c] = p`, result keep[:c + 1]; slot_k = 0: c counts the slots used,
+        # `keep[c] = p; c += 1`, the entry of the current run is keep[c - 1], result keep[:c]).  U starts at 1 (slot 0 holds the seed) unless the
+        # first run is recorded by the scan itself (sentinel)
+        slot_c = slot_k = None
+        extra = ""
         if len(news) == 1:
             slot_new = news[0][0]
             if slot_new == "append":
                 ok = True
             elif slot_new[0] == "lit":
                 ok = False              # every run overwrites one fixed slot
-            elif slot_new[0] == "count":
+            elif slot_new[0] in ("count", "count+"):
                 c = slot_new[1]
-                incs = [st for v, st in sc.defs.get(c, []) if isinstance(v, tuple) and inloop(st)]
-                init = [sc.D(sc.X(v)) for v, st in sc.defs.get(c, []) if isinstance(v, ast.AST)]
-                if len(incs) == 1 and where_arm(incs[0]) == "new" and init == [("lit", 0)] and (incs[0].lineno < news[0][2].lineno) != sentinel:
-                    ok = True           # seed in slot 0 before the loop: advance, then store; first run recorded by the scan itself: store, then advance
-                elif not incs:
+                off = slot_new[2] if slot_new[0] == "count+" else 0
+                incs = [(v, st) for v, st in sc.defs.get(c, []) if inloop(st)]
+                c0 = sc.count_at(c, lp.lineno)          # what the counter holds when the scan begins
+                if not incs:
                     ok = False          # the slot counter never advances: every run overwrites the same slot
-        chk.ob("R06.1", q + "::new-run-takes-a-fresh-slot", ok, fi.where(runif), "each new run is recorded in the next free slot (slot 0 belongs to the seed)")
+                elif len(incs) == 1 and isinstance(incs[0][0], tuple) and where_arm(incs[0][1]) == "new" and incs[0][0][1] == "Add" \
+                        and sc.D(sc.X(incs[0][0][2])) == ("lit", 1) and c0 is not None:
+                    k = c0 - (0 if sentinel else 1)
+                    advanced_first = incs[0][1].lineno < news[0][2].lineno
+                    # the store must hit slot U (the first free one): with c = U + k before the arm that is c - k, or (c + 1) - k - 1 once advanced
+                    extra = " (`%s` starts at %d with %d slot(s) in use, is advanced %s the store into slot `%s`)" % (
+                        c, c0, 0 if sentinel else 1, "before" if advanced_first else "after", norm(news[0][2].targets[0].slice))
+                    hit = off + k + (1 if advanced_first else 0)       # the slot written, relative to the first free one
+                    ok = hit == 0
+                    if ok:
+                        slot_c, slot_k = c, k
+                    else:
+                        extra += ": the store goes to %s" % ("a slot already in use, whose entry is lost" if hit < 0 else "the slot after the first free one, "
+                                                             "which is left holding its initial value")
+        chk.ob("R06.1", q + "::new-run-takes-a-fresh-slot", ok, fi.where(runif),
+               "each new run is recorded in the next free slot (slot 0 belongs to the seed)" + extra)
+        if slot_c is not None:
+            _kept_extent(chk, sc, q, kname, slot_c, slot_k)
         # slot 0
         seeds = [(slot, v, st) for slot, v, st in pre_st if slot == ("lit", 0) or slot == "append"]
         first = None
@@ -3188,15 +3283,31 @@ def _scan_logic(chk, sc, narr):
             chk.ob("R06.1", kk, None, fi.where(flagif), mm + " -- the comparand %s is not understood" % (fref,))
             return
         if mode == "A":
+            # the entry of the current run is the last slot in use: slot c - slot_k - 1 of a counted container, slot -1 of a list
             lar = [(slot, v, st) for slot, v, st in in_st if where_arm(st) == "larger"]
             news = [(slot, v, st) for slot, v, st in in_st if where_arm(st) == "new"]
-            kept = len(lar) == 1 and len(news) == 1 and lar[0][0] == news[0][0] and lar[0][1] == want_cur and lar[0][0] != "append"
-            if kept and lar[0][0][0] == "count":
-                kept = not any(isinstance(v, tuple) and inloop(st) and where_arm(st) == "larger" for v, st in sc.defs.get(lar[0][0][1], []))
+            kept = None
+            if not lar:
+                kept = False            # the largest flag is remembered, the position that carries it is not
+            elif len(lar) == 1 and len(news) == 1:
+                lslot, lv = lar[0][0], lar[0][1]
+                if lslot == "append":
+                    kept = False        # a second entry for the same value
+                elif lv != want_cur:
+                    kept = False if lv[0] in ("pos", "idx", "lit") else None
+                elif news[0][0] == "append":
+                    kept = True if lslot == ("lit", -1) else (False if lslot[0] == "lit" else None)
+                elif slot_c is not None and lslot[0] in ("count", "count+") and lslot[1] == slot_c:
+                    kept = (lslot[2] if lslot[0] == "count+" else 0) + slot_k == -1
+                    if any(isinstance(v, tuple) and inloop(st) and where_arm(st) == "larger" for v, st in sc.defs.get(slot_c, [])):
+                        kept = False    # a larger flag must not open a new slot
+                elif slot_c is not None and lslot[0] == "lit":
+                    kept = False        # one fixed slot, whatever run the scan is in
         else:
             kept = bool(upd)
-        chk.ob("R06.1", kk, bool(upd and reset and kept), fi.where(flagif), mm + " (largest flag updated: %s, reset at a new run: %s, kept position replaced: %s)"
-               % (bool(upd), bool(reset), bool(kept)))
+        chk.ob("R06.1", kk, None if kept is None and upd and reset else bool(upd and reset and kept), fi.where(flagif),
+               mm + " (largest flag updated: %s, reset at a new run: %s, kept position replaced: %s)"
+               % (bool(upd), bool(reset), "not decided" if kept is None else bool(kept)))
     # -- returned indices are in Idx space -------------------------------------
     for r_ in [x for x in walk_no_nested(fn) if isinstance(x, ast.Return) and x.value is not None]:
         vals = []
@@ -3231,6 +3342,60 @@ def _scan_logic(chk, sc, narr):
     srt = [x for x in walk_no_nested(fn) if isinstance(x, ast.Call) and _cname(x) == "sort" and isinstance(x.func, ast.Attribute) and not _is_np(x)]
     bad = [c for c in srt if sc.D(sc.X(c.func.value))[0] == "in"]
     chk.ob("R06.1", q + "::sorts-own-array", not bad, fi.where(bad[0]) if bad else fi.where(), "an in-place sort is applied to a local index array, never to an argument")
+
+
+def _kept_extent(chk, sc, q, kname, c, k):
+    """a counted container is allocated with one slot per element; what is handed on after the scan must be exactly the slots in use.  With the
+    slot counter c = U + k (U slots in use) that is the slice [0 : c - k]: every use of the container after the loop is looked at"""
+    fi, fn, lp = sc.fi, sc.fn, sc.loop
+    key = q + "::kept-slice-covers-recorded-slots"
+    msg = "after the scan the kept container is cut to exactly the slots in use (`%s[:%s]`)" % (kname, c if k == 0 else "%s %s %d" % (c, "+" if k < 0 else "-", abs(k)))
+    end = getattr(lp, "end_lineno", lp.lineno)
+    parent = {}
+    for x in walk_no_nested(fn):
+        for y in ast.iter_child_nodes(x):
+            parent[id(y)] = x
+    uses = []
+    for x in walk_no_nested(fn):
+        if isinstance(x, ast.Name) and isinstance(x.ctx, ast.Load) and getattr(x, "lineno", 0) > end and id(x) not in sc.inloop:
+            e = sc.X(x)
+            if isinstance(e, ast.Name) and e.id == kname:
+                uses.append(x)
+    if not uses:
+        chk.ob("R06.1", key, None, fi.where(lp), msg + "; the container is not used after the scan")
+        return
+    verdict, at, why = True, uses[0], ""
+    for x in uses:
+        pa = parent.get(id(x))
+        v = None
+        if isinstance(pa, ast.Subscript) and pa.value is x and isinstance(pa.slice, ast.Slice) and isinstance(pa.ctx, ast.Load):
+            sl = pa.slice
+            lo = None if sl.lower is None else sc.D(sc.X(sl.lower))
+            stp = None if sl.step is None else sc.D(sc.X(sl.step))
+            up = None if sl.upper is None else sc.D(sc.X(sl.upper))
+            if lo in (None, ("lit", 0), ("konst", "None")) and stp in (None, ("lit", 1), ("konst", "None")) and up is not None \
+                    and up[0] in ("count", "count+") and up[1] == c:
+                e = up[2] if up[0] == "count+" else 0
+                adj = sc.count_at(c, x.lineno, since=end)       # `c += 1` between the scan and the slice
+                if adj is None:
+                    verdict, at = None, x
+                    why = "; `%s` is re-defined between the scan and `%s` in a way this check does not know" % (c, norm(pa))
+                    break
+                e += adj
+                v = (e + k == 0)
+                if not v:
+                    why = "; found `%s`: %s" % (norm(pa), "the entry of the last run is cut off" if e + k < 0 else
+                                                "%d slot(s) that no run was recorded in (still holding their initial value) are handed on as indices" % (e + k))
+            elif up is None and lo in (None, ("lit", 0)) and stp in (None, ("lit", 1)):
+                v = False
+                why = "; found `%s`: the whole allocation, unused slots included, is handed on" % norm(pa)
+        if v is False:
+            verdict, at = False, x
+            break
+        if v is None and verdict is True:
+            verdict, at = None, x
+            why = "; `%s` is used in a form this check does not know (`%s`)" % (kname, norm(parent.get(id(x), x))[:80])
+    chk.ob("R06.1", key, verdict, fi.where(at), msg + why)
 
 
 def _size_one_guard(sc, st, ctrl):
